@@ -468,13 +468,19 @@ func c01Concurrent(ev *vlib.Evidence, driver string, idx int) {
 
 func TestC01(t *testing.T) {
 	ev := vlib.NewEvidence("C01", "exploration",
-		"(a) random sequential pool histories (connect, reconnect, billed keep-alives with random peer reports and elapsed times, peer requests, pool_addNode linking, deposits, withdrawals incl. a billed transfer landing while the settlement is in flight, forged requests; min balance in {nil,-1e6,0,1,1e6,1e20}) with the ledger total checked two ways after every operation; (b) the same with at most one injected failing store call per pool operation; (c) concurrent client updates against shared hosts with concurrent wallet linking and injected delays, ledger checked at quiescence; non-trivial = credit actually moved; distinct = distinct traces")
+		"(bin) the built pool binary with price/minimum/store given on its command line, a host and a light client paired and billed over 3-4 s of real time: the host holds exactly what the client lost and pool_status reports total credit 0; (a) random sequential pool histories (connect, reconnect, billed keep-alives with random peer reports and elapsed times, peer requests, pool_addNode linking, deposits, withdrawals incl. a billed transfer landing while the settlement is in flight, forged requests; min balance in {nil,-1e6,0,1,1e6,1e20}) with the ledger total checked two ways after every operation; (b) the same with at most one injected failing store call per pool operation; (c) concurrent client updates against shared hosts with concurrent wallet linking and injected delays, ledger checked at quiescence; non-trivial = credit actually moved; distinct = distinct traces")
 	ev.Assume("fault discipline: at most one failing store call per pool operation (clause keys single-store-fault:*)")
+	binDone := make(chan struct{})
+	go func() {
+		defer close(binDone)
+		parallelCases(vlib.Scale(7, 70), 4, func(i int) { binEconomy(ev, "C01", i) })
+	}()
 	for _, driver := range vlib.Drivers() {
 		driver := driver
 		parallelCases(vlib.Scale(400, 8000), 8, func(i int) { c01Sequential(ev, driver, i, false) })
 		parallelCases(vlib.Scale(300, 6000), 8, func(i int) { c01Sequential(ev, driver, i, true) })
 		parallelCases(vlib.Scale(30, 600), 2, func(i int) { c01Concurrent(ev, driver, i) })
 	}
+	<-binDone
 	finish(t, ev)
 }
